@@ -377,6 +377,12 @@ def handleC09 (op : String) (j : Json) : Option Json :=
         some (obj [("down", Json.arr (ds.map (fun d => rOpJ (view d))).toArray),
                    ("kinds", strs ((kindsL ds).map kindToStr)),
                    ("expected", strs ((expectedDown (tagsL ops)).map kindToStr))])
+  | "rev.viewEq" =>
+    match rOpOfJson (getObj j "a"), rOpOfJson (getObj j "b") with
+    | some a, some b =>
+      some (obj [("holds", Json.bool ((rOpJ (view a)).compress == (rOpJ (view b)).compress)),
+                 ("reversible", Json.bool (reversible a)), ("clean", Json.bool (clean a))])
+    | _, _ => some (errJ "bad-op")
   | "rev.order" =>
     let ups := (getArr j "ups").mapM (fun e =>
       match e with
